@@ -299,6 +299,7 @@ type Pred struct {
 	EqC    []Bit // predicate is EqBits == EqC (vector equality)
 	Neg    bool  // predicate is the negation of the above
 	BoolA  *Bit  // predicate is this single bit being 1
+	EqLin  *Lin  // predicate is EqLin == 0
 }
 
 var (
